@@ -31,6 +31,11 @@ func errTypeMissMatch(name string, ft *parser.Type, v *parser.ConstValue) error 
 type Resolver struct {
 	root *Scope
 	util *CodeUtils
+
+	// values is the scope a constant expression being resolved is written in. Members of a
+	// struct literal are typed in the scope of the struct's file, but the identifiers among
+	// their values (and parser.ConstValueExtra.Index) still belong to the file of the literal.
+	values *Scope
 }
 
 // NewResolver creates a new Resolver with the given scope.
@@ -158,6 +163,13 @@ func (r *Resolver) getContainerTypeName(g *Scope, t *parser.Type) (name string, 
 // The extra must be associated with g and from a const value that has
 // type parser.ConstType_ConstIdentifier.
 func (r *Resolver) getIDValue(g *Scope, extra *parser.ConstValueExtra) (v string, ok bool) {
+	if r.values != nil {
+		g = r.values
+	}
+	return r.lookupIDValue(g, extra)
+}
+
+func (r *Resolver) lookupIDValue(g *Scope, extra *parser.ConstValueExtra) (v string, ok bool) {
 	if extra == nil {
 		// an identifier that names nothing (e.g. true/false used where no boolean is expected)
 		return "", false
@@ -184,7 +196,7 @@ func (r *Resolver) getIDValue(g *Scope, extra *parser.ConstValueExtra) (v string
 			Name:   extra.Name,
 			Sel:    extra.Sel,
 		}
-		return r.getIDValue(g, extra)
+		return r.lookupIDValue(g, extra)
 	}
 	_, rootPkg := r.util.Import(r.root.ast)
 	_, constPkg := r.util.Import(g.ast)
@@ -198,6 +210,10 @@ func (r *Resolver) getIDValue(g *Scope, extra *parser.ConstValueExtra) (v string
 // ResolveConst returns the initialization code for a constant or a default value.
 // The type t must be a parser.Type associated with g.
 func (r *Resolver) ResolveConst(g *Scope, name string, t *parser.Type, v *parser.ConstValue) (Code, error) {
+	if r.values == nil {
+		r.values = g
+		defer func() { r.values = nil }()
+	}
 	str, err := r.resolveConst(g, name, t, v)
 	return Code(str), err
 }
